@@ -101,6 +101,7 @@ pub fn pick_profile(r: &mut Rng, weights: &ProfileWeights) -> Profile {
                 (obs::D_COORD, "coordinators"),
                 (obs::D_WAIT, "wait"),
                 (obs::D_CACHE, "cache"),
+                (obs::D_FINISH_AT_HEAD, "finish-at-head"),
             ];
             let allowed: Vec<_> = all.iter().filter(|(b, _)| weights.directors & b != 0).collect();
             let (bits, name) = if allowed.is_empty() { all[r.usize(all.len())] } else { **r.pick(&allowed) };
@@ -345,7 +346,9 @@ fn trace_tail_head(out: &RunOut, n: usize) -> Vec<String> {
 
 /// Stable signature for matching known findings: monitor plus a normalised message class.
 pub fn finding_signature(v: &Violation) -> String {
-    let class = if v.monitor == "FAULT-EAGER-CODE" {
+    let class = if v.monitor == "FAULT-NONCE-MAX-PRECHECK" {
+        "sender-preread"
+    } else if v.monitor == "FAULT-EAGER-CODE" {
         "eager-code-fetch"
     } else if v.message.starts_with("bundle: contracts differ") {
         "bundle-contracts"
